@@ -14,7 +14,7 @@
    behavioural repairs (count checks, loops that stop on error, no speculative allocation);
    [pinned] has none of them.  The theorems quantify over every oracle for the library parsers. *)
 From Coq Require Import List ZArith NArith Bool Init.Byte Lia Strings.String.
-From HV Require Import Model.DecStream Model.DecBytes Proofs.DecBytesProofs.
+From HV Require Import Model.DecStream Model.DecBytes Proofs.DecBytesProofs Proofs.DecBytesCost.
 Import ListNotations.
 Open Scope string_scope.
 Local Notation length := List.length.
@@ -158,6 +158,48 @@ Print Assumptions C04_malformed_reported_refuted_empty_integer.
 Theorem C04_malformed_reported_refuted_list_body : done_with (U (B "a{1}") true SIface) (fun s => err s = None).
 Proof. exact w_lenient_list. Qed.
 Print Assumptions C04_malformed_reported_refuted_list_body.
+
+(* ---- C04_terminates_linear ---- *)
+
+(* The evaluator itself always terminates: with fuel 3*(|bs|+1)+3 (fuel_for gives more) no run of
+   Unmarshal / service request / client response decoding ends in OutOfFuel, whatever the bytes,
+   shape, mode, oracle, fixes and checks. *)
+Theorem C04_fuel_suffices : forall orc reg fx bs smp sh checked,
+  interp checked (unmarshal orc reg fx (fuel_for reg bs (depth sh)) bs smp sh) <> VFuel.
+Proof. intros. apply unmarshal_bounds. apply fuel_for_is_enough. Qed.
+Print Assumptions C04_fuel_suffices.
+Theorem C04_fuel_suffices_service : forall orc reg fx ms missing bs d checked,
+  interp checked (service_decode orc reg fx (fuel_for reg bs d) ms missing bs) <> VFuel.
+Proof. intros. apply service_bounds. apply fuel_for_is_enough. Qed.
+Print Assumptions C04_fuel_suffices_service.
+Theorem C04_fuel_suffices_client : forall orc reg fx rts bs d checked,
+  interp checked (client_decode orc reg fx (fuel_for reg bs d) rts bs) <> VFuel.
+Proof. intros. apply client_bounds. apply fuel_for_is_enough. Qed.
+Print Assumptions C04_fuel_suffices_client.
+
+(* The step count, for ALL inputs: in every state of every run
+     steps <= 400*(|bs|+1) + c + spin     and     spin <= excess
+   (c = 1 for Unmarshal, 320 for a service request, 320 + number of return types for a client
+   response).  All the super-linear time there is, is iterations run after the input ended. *)
+Theorem C04_steps_bound : forall orc reg fx fuel bs smp sh, enough fuel bs ->
+  all_states (within 1 bs) (unmarshal orc reg fx fuel bs smp sh).
+Proof. intros. apply unmarshal_bounds. assumption. Qed.
+Print Assumptions C04_steps_bound.
+Theorem C04_steps_bound_service : forall orc reg fx fuel ms missing bs, enough fuel bs ->
+  all_states (within (3 * c0 + 20) bs) (service_decode orc reg fx fuel ms missing bs).
+Proof. intros. apply service_bounds. assumption. Qed.
+Print Assumptions C04_steps_bound_service.
+Theorem C04_steps_bound_client : forall orc reg fx fuel rts bs, enough fuel bs ->
+  all_states (within (3 * c0 + 20 + Z.of_nat (length rts)) bs) (client_decode orc reg fx fuel rts bs).
+Proof. intros. apply client_bounds. assumption. Qed.
+Print Assumptions C04_steps_bound_client.
+
+(* the exact guard under which time is linear: every count and length the wire announced was
+   delivered by the input (excess = 0; with the repaired loops, fx_loop, spin is 0 regardless) *)
+Theorem C04_terminates_linear_partial : forall c bs s', within c bs s' -> excess s' = 0%N ->
+  (Z.of_N (steps s') <= K * (Z.of_nat (length bs) + 1) + c)%Z.
+Proof. exact within_no_excess. Qed.
+Print Assumptions C04_terminates_linear_partial.
 
 (* ---- C04_terminates_linear / C04_alloc_linear: refuted on the pinned tree ---- *)
 
